@@ -1,19 +1,31 @@
 SPEC = dict(
     property='C20',
     level='other',
-    level_text='Bounded (labelled) on the real functions over a grammar-directed family of annotations: get_mods / strip_mods / add_mods '
-               'reproduce the original string; create_annotation(**a.dict()) == a; copies are equal and share no mutable field object; '
-               'strip() (both modes) removes every modification and nothing else; add_mod_dict(strip(a), mod_dict(a)) == a; equality is '
-               'reflexive, symmetric (every comparison is made in both directions), insensitive to the order of modifications at one position '
-               'and unequal to every single-field perturbation (value, multiplier, position, interval bound, ambiguity, charge, drop, '
-               'duplicate, residue). Deductive support: the 23 accessor contracts and slice/shift/reverse value contracts (C11) rest on the '
-               'same record model; __eq__ (Counter-based multiset comparison) is not yet under contract.',
-    level_note='equality is exercised through the real __eq__ of ProFormaAnnotation / Mod / Interval; LC-COUNTER not modelled.',
+    level_text='Mixed. DEDUCTIVE (record model of the annotation, unbounded): ProFormaAnnotation.__eq__ is proved to return True EXACTLY when '
+               'the residues are equal, each of the seven modification lists and every residue position hold the same multiset of '
+               'modifications (or are both absent), the intervals are the same multiset with the same length, and the charge is equal -- '
+               'nothing ignored, nothing extra (loop over the union of both key sets with an invariant over the positions seen); '
+               'are_mods_equal / are_intervals_equal / get_internal_mods_by_index are proved against their multiset contracts; strip() is '
+               'proved to remove every modification and nothing else in both modes (in place: through the ten property setters, each under '
+               'its own verified contract; copy mode leaves the receiver unchanged); copy() returns an equal value. Lemmas over the contracts: '
+               'equality is reflexive, symmetric, transitive, copy-equal and sensitive to residues / charge / presence. '
+               'BOUNDED (labelled) on the real functions over a grammar-directed family of annotations: get_mods / strip_mods / add_mods '
+               'reproduce the original string; create_annotation(**a.dict()) == a; copies share no mutable field object; '
+               'add_mod_dict(strip(a), mod_dict(a)) == a; equality laws and every single-field perturbation through the real __eq__ / '
+               '__hash__ of Mod and Interval (which the deductive tier abstracts as LC-COUNTER).',
+    level_note='Counter(list) is an uninterpreted multiset abstraction (LC-COUNTER): hashing and equality of Mod / Interval elements are '
+               'exercised only by the bounded tier; the string / dictionary round trips are bounded only.',
     design_ref='DESIGN.md section 6, C20',
-    technique='bounded run-time contract check (round trips, equality laws, exhaustive single-field perturbations) as labelled stand-in',
+    technique='weakest-precondition VCs from the real AST of __eq__, strip, copy, the ten property setters and the comparison helpers '
+              'against sidecar contracts, discharged by z3 / cvc5; lemmas over the contracts; bounded run-time contract check (round trips, '
+              'perturbations) as labelled stand-in for the string round trips',
+    contracts=['equality'],
     bounded=[dict(name='C20-bounded', script='bounded/C20.py')],
     replay_finder='bounded/C20.py',
-    explanation='bounded check only in this revision',
-    proved_clauses=[], bounded_clauses=['string and dictionary round trips', 'copy equal and independent', 'strip', 'equality laws + sensitivity to every single-field perturbation'],
-    uncovered_clauses=[], assumptions=[], trusted_base=['bounded/C20.py'],
+    explanation='equality / strip / copy proved on the record model; round trips bounded',
+    proved_clauses=['== is True exactly when every listed field is equal as a multiset (order-insensitive, sensitive to every field)',
+                    'reflexive / symmetric / transitive (lemmas over the contract)', 'strip removes every modification and nothing else (both modes)',
+                    'copy returns an equal value'],
+    bounded_clauses=['string and dictionary round trips', 'copy independent (no shared mutable field)', 'element-level equality of Mod / Interval (value, multiplier, bounds, ambiguity)'],
+    uncovered_clauses=[], assumptions=['LC-COUNTER', 'LC-DEEPCOPY'], trusted_base=['z3 5.1', 'cvc5 1.0.3', 'pyvc', 'bounded/C20.py'],
 )
